@@ -23,7 +23,7 @@ PROPS = {
             "note": "totality: Verus' implicit obligations (no overflow, no failing unwrap/index/slice, every loop and recursion terminates) on every verified function of every unit; glue functions pinned + panic witnesses"},
     "C14": {"units": ["U8", "U11"], "min_obligations": 8,
             "note": "literal report: length window, require/RegExp exclusions, which sub-trees are visited, disabled => no report; line/column shaping (get_result) is a pinned trusted leaf"},
-    "C15": {"units": ["U1", "U4", "U5", "U6b", "U6c", "U7", "U2b", "U11"], "min_obligations": 10,
+    "C15": {"units": ["U1", "U4", "U5", "U6b", "U6c", "U7", "U2b", "U11", "U9"], "min_obligations": 10,
             "note": "metrics == instrumentation emitted: per-call contracts on update_status/Telemetry (U1) and on every update_status call site of visit_mut_expr (U6)"},
 }
 
@@ -32,7 +32,9 @@ GLOBAL_TRUSTED = [
     "swc_ecma_ast/swc_common datatype definitions are re-read from the locked registry sources each run; their helper methods (is_lit, take, clone, From/Into, Atom equality) carry ASSUMED specs in shim/swc_helpers.rs",
     "std items without vstd specs carry ASSUMED specs in shim/std_specs.rs",
     "extraction drops: use lines (except enum-variant imports), non-derive attributes, derives other than Clone/Copy/PartialEq/Eq, visibility, logging macro statements, the `impl VisitMut for X` wrapper (overridden methods become inherent methods)",
-    "normalisation rules N1-N8 (DESIGN.md 3.2) are syntactic rewrites of library combinators into their definitions; each application is listed",
+    "normalisation rules N1-N26 (DESIGN.md 3.2, 10.1, 10.7, 10.8) are syntactic rewrites of library combinators / macros / dispatch into their definitions (e.g. N21: `for t in map.tokens()` == index loop over get_token(i); N22: format! with `{}` == concatenation of Display texts; N26: program.visit_mut_with(v) == v.visit_mut_program(program)); each application is listed per function",
+    "library layers are ASSUMED through their shim contracts: sourcemap 8.0.1 (shim/sourcemap.rs), base64 / Cow / Display text (shim/textfmt.rs), swc Compiler::print / comments / anyhow::Error (shim/swc_compiler.rs), the swc traversal (shim/traversal*.rs)",
+    "witness replay (replay crate, node execution oracle) is used only to demonstrate a violation on the real code; it never discharges an obligation",
     "machine arithmetic is NOT treated as mathematical: every usize/u32 operation carries an overflow obligation",
 ]
 
